@@ -75,6 +75,11 @@ def build(desc: Any, name: str, model: dict[str, Any]) -> Any:
             if matches(alt, name, model):
                 return build(alt, name, model)
         return build(desc.alts[0], name, model)
+    if isinstance(desc, dsl.SeqOf):
+        items = []
+        while has_keys(f"{name}[{len(items)}]", model):
+            items.append(build(desc.elem, f"{name}[{len(items)}]", model))
+        return items
     if isinstance(desc, dsl.ListOf):
         items = []
         while has_keys(f"{name}[{len(items)}]", model):
